@@ -5,7 +5,7 @@ package c19
 // appends to a slice practically forever. So every range call is executed in a
 // child process (this same test binary, started with VERIF_C19_WORKER=1) that
 //   - runs the source with vm.ExecuteContext under a 5 s deadline,
-//   - has a heap watchdog (live heap > 1 GiB => answer "runaway" and exit),
+//   - has a heap watchdog (live heap > 128 MiB => answer "runaway" and exit),
 // and the parent kills the child when no answer arrives within the bound.
 
 import (
@@ -31,7 +31,7 @@ import (
 const (
 	hangBound      = 5 * time.Second
 	reconfirmBound = 10 * time.Second
-	heapBound      = 1 << 30
+	heapBound      = 128 << 20
 	maxReturned    = 1200
 )
 
